@@ -95,7 +95,7 @@ fn issuer_history(ctx: &Ctx, case: u64, l: &mut Local) {
         l.evals += 1;
         // ---- a failing call?
         if with_failures && r.chance(35) {
-            let kind = r.below(7);
+            let kind = r.below(8);
             let fmt = *r.pick(&[Fmt::Compact, Fmt::Json]);
             let holder = match r.below(3) {
                 0 => None,
@@ -112,11 +112,38 @@ fn issuer_history(ctx: &Ctx, case: u64, l: &mut Local) {
                 // a Custom list whose FIRST paths are fine (they name claims that later calls often
                 // carry in clear) and whose last one is malformed
                 5 => api::issue_raw(&mut issuer, &json!({"iss": "i", "exp": 4000000000u64, "sub": poison_tag, "nbf": 1, "iat": 2}), sd_jwt_rs::ClaimsForSelectiveDisclosureStrategy::Custom(vec!["$.sub", "$.nbf", "$.iat", "$.cnf", "no-dollar-prefix"]), holder, true, fmt),
-                _ => api::issue_raw(&mut issuer, &json!({"iss": "i", "exp": 4000000000u64, "sub": poison_tag, "o": {"_sd": 1}}), sd_jwt_rs::ClaimsForSelectiveDisclosureStrategy::Custom(vec!["$.sub", "$.nbf", "$.o"]), holder, true, fmt),
+                6 => api::issue_raw(&mut issuer, &json!({"iss": "i", "exp": 4000000000u64, "sub": poison_tag, "o": {"_sd": 1}}), sd_jwt_rs::ClaimsForSelectiveDisclosureStrategy::Custom(vec!["$.sub", "$.nbf", "$.o"]), holder, true, fmt),
+                // the claims of the previous successful call — same member names everywhere — with a
+                // reserved member planted inside an object that is an ARRAY ELEMENT, and deep below
+                _ => {
+                    let mut c = prev_claims.as_ref().map(|p| p.0.clone()).unwrap_or_else(|| json!({"iss": "i", "exp": 4000000000u64, "a": [1]}));
+                    fn plant(v: &mut Value, tag: &str, done: &mut bool) {
+                        match v {
+                            Value::Array(a) if !*done => {
+                                a.push(json!({"deep": {"deeper": {"deepest": [{"_sd": [tag]}]}}}));
+                                *done = true;
+                            }
+                            Value::Object(m) => {
+                                for (_, x) in m.iter_mut() {
+                                    plant(x, tag, done);
+                                }
+                            }
+                            _ => {}
+                        }
+                    }
+                    let mut done = false;
+                    plant(&mut c, &poison_tag, &mut done);
+                    if !done {
+                        c["l8"] = json!({"a": {"b": {"c": {"d": {"e": {"f": {"g": {"...": poison_tag}}}}}}}});
+                    }
+                    api::issue_raw(&mut issuer, &c, sd_jwt_rs::ClaimsForSelectiveDisclosureStrategy::AllLevels, holder, true, fmt)
+                }
             };
             l.count("issuer.calls.failing");
             if out.is_ok() {
+                // every one of these inputs is refused by a fresh instance
                 l.count("issuer.failing-call-succeeded");
+                l.violate(viol(case, "issuer-call-outcome-depends-on-history", &format!("call#{k} (failing kind {kind})"), "a reused issuer accepted input that the library refuses on a fresh instance".into(), json!({"earlier_calls": summary, "history": api::history()})));
             }
             if out.is_panic() {
                 l.violate(viol(case, "panic", "failing-issuer-call", out.panic_signature().unwrap(), json!({"history": api::history()})));
@@ -280,7 +307,19 @@ fn issuer_history(ctx: &Ctx, case: u64, l: &mut Local) {
                     };
                     l.violate(viol(case, "issuer-call-fails-only-on-reused-instance", &format!("call#{k}"), obs, json!({"input": input(), "history": api::history()})));
                 } else {
-                    l.count("issuer.skipped.fails-on-fresh-too");
+                    // ... and on a fresh THREAD? (state kept per thread rather than per instance)
+                    let (u2, st2) = (s.u.clone(), s.strat.clone());
+                    let ok_elsewhere = std::thread::spawn(move || {
+                        let mut fresh = api::new_issuer(alg, 0, true);
+                        pipeline::issue_with(&mut fresh, &u2, &st2, holder, decoys, fmt).is_ok()
+                    })
+                    .join()
+                    .unwrap_or(false);
+                    if ok_elsewhere {
+                        l.violate(viol(case, "issuer-call-fails-only-on-reused-instance", &format!("call#{k} (fails on this thread, succeeds on a new one)"), "the same call succeeds on a fresh thread: per-thread state left behind by earlier calls".into(), json!({"input": input(), "history": api::history()})));
+                    } else {
+                        l.count("issuer.skipped.fails-on-fresh-too");
+                    }
                 }
                 summary.push(json!({"call": k, "kind": "regular", "result": "err"}));
                 prev = Some((fmt, decoys, holder, false));
@@ -384,7 +423,7 @@ fn holder_history(ctx: &Ctx, case: u64, l: &mut Local) {
         l.evals += 1;
         if with_failures && r.chance(35) {
             let sel_ok = pipeline::random_selection(&mut r, &s.u);
-            let kind = r.below(11);
+            let kind = r.below(12);
             type A = (Value, Option<String>, Option<String>, Option<(Alg, usize)>, Option<String>);
             let args: A = match kind {
                 0 => (sel_ok.clone(), Some("n".into()), None, None, None),
@@ -396,6 +435,13 @@ fn holder_history(ctx: &Ctx, case: u64, l: &mut Local) {
                 5 => (sel_ok.clone(), Some(String::new()), Some(String::new()), None, None),
                 6 => (sel_ok.clone(), Some(String::new()), None, None, None),
                 7 => (sel_ok.clone(), None, Some(String::new()), None, None),
+                // a name that exists one level DOWN, asked for at the top level (where it does not exist)
+                10 => {
+                    let nested: Option<String> = s.u.as_object().and_then(|m| m.values().filter_map(|v| v.as_object()).flat_map(|o| o.keys()).find(|k| !m.contains_key(*k)).cloned());
+                    let mut sel = serde_json::Map::new();
+                    sel.insert(nested.unwrap_or_else(|| "no-such-claim#zz;".into()), json!(true));
+                    (Value::Object(sel), None, None, None, None)
+                }
                 // complete key-binding arguments whose algorithm name is spelled in another case / with blanks
                 8 | 9 => {
                     let hk = cfg.holder.unwrap_or((Alg::ES256, 1));
